@@ -41,6 +41,7 @@ class Scenario:
     fix_gc: bool = False
     fix_interrupt: bool = True
     grace: int = 0
+    data_age_ms: int = 0       # > 0: data files are back-dated by this much when written
 
     def idx(self, a: str) -> int:
         return [x.name for x in self.actors].index(a) + 1
@@ -60,6 +61,7 @@ class Execution:
         self.scn = scn
         self.root = root
         self.env = Env(clock_mode=scn.clock_mode, lock_kind=scn.lock_kind, backend=scn.backend)
+        self.env.data_age_ms = scn.data_age_ms
         self.tables: Dict[str, Any] = {}
         self.outcomes: Dict[str, List[str]] = {}
         self.init_obs: Dict[str, Any] = {}
@@ -213,6 +215,8 @@ class Execution:
                         ok = table.snapshot_manager.delete_snapshot(raw if raw is not None else 1)
                         if not ok:
                             res = "false"
+                    elif t == "gc":
+                        extra["stats"] = table.garbage_collect(grace_period_ms=int(op.get("grace", 3600000)))
                     elif t == "read":
                         api = op.get("api", "scan")
                         vc = op.get("verify")
@@ -244,8 +248,13 @@ class Execution:
                 except MachineryError:
                     raise
                 except Exception as e:  # noqa: BLE001 - the operation's outcome
-                    res = "error"
+                    if type(e).__name__ == "GarbageCollectionAborted":
+                        res = "aborted"
+                    else:
+                        res = "error"
                     self.errors[spec.name].append(f"{type(e).__name__}: {e}")
+                if False:
+                    pass
                 if res == "ok":
                     self.acked_ops.add((spec.name, i))
                 self.outcomes[spec.name].append(res)
@@ -344,6 +353,8 @@ def spec_prog(scn: Scenario) -> Dict[str, List[Dict[str, Any]]]:
                     ids.add(960 + int(r[1]) if r[0] == "init" else scn.idx(r[0]) * 100 + int(r[1]) * 10 + int(r[2]))
                 ops.append({"t": "multi", "add": [scn.idx(a.name) * 100 + i * 10 + k for k in range(1, op.get("n", 0) + 1)],
                             "del": ids, "cutoff": int(op["cutoff"]) if op.get("cutoff") is not None else -1})
+            elif t == "gc":
+                ops.append({"t": "gc", "grace": int(op.get("grace", 3600000))})
             elif t == "read":
                 ops.append({"t": "read", "data": op.get("api", "scan") != "count"})
             else:
@@ -370,7 +381,7 @@ def scn_constants(scn: Scenario) -> Dict[str, Any]:
     return {"Actors": R("<- ScnActors"), "Role": R("<- ScnRole"), "Idx": R("<- ScnIdx"), "Handle": R("<- ScnHandle"),
             "Prog": R("<- ScnProg"), "Backend": scn.backend, "LockKind": scn.lock_kind, "ClockMode": scn.clock_mode,
             "MaxClock": 1000000, "MaxAttempts": scn.max_attempts, "InitSnaps": scn.init_snaps,
-            "FixStamp": scn.fix_stamp, "FixEtag": scn.fix_etag, "FixGCOrder": scn.fix_gc, "FixInterrupt": scn.fix_interrupt, "FaultKinds": set(), "FaultBudget": 0, "Grace": scn.grace}
+            "FixStamp": scn.fix_stamp, "FixEtag": scn.fix_etag, "FixGCOrder": scn.fix_gc, "FixInterrupt": scn.fix_interrupt, "FaultKinds": set(), "FaultBudget": 0, "Grace": scn.grace, "OldFiles": False, "MarkerTimeout": 86400000}
 
 
 L1_INVARIANTS = ["TypeOK", "Serializable", "LinearChain", "AckedOnce", "NoDoubleCommit", "ReachablePresent",
